@@ -1,4 +1,5 @@
 mod alloc;
+mod bitops;
 mod core_mp;
 mod core_pp;
 mod crash;
@@ -52,6 +53,8 @@ fn main() {
         "alloc-lookup" => alloc::run_lookup(seed, cases, &mut sink),
         "wal" => wal::run(seed, cases, &mut sink),
         "overlay-index" => ovl::run(seed, cases, &mut sink),
+        "bitops" => bitops::run(seed, cases, &mut sink),
+        "bitops-node" => bitops::run_nodes(seed, cases, &mut sink),
         "core-pp" => core_pp::run(seed, cases, &mut sink),
         "core-mp" => core_mp::run(seed, cases, &mut sink),
         "core-mp-corpus" => {
